@@ -1,12 +1,28 @@
 #!/usr/bin/env python3
 """Writes /verif/MANIFEST.json from tools/props.py (single source of truth for what is claimed)."""
-import json, os, sys
+import json, os, os, sys
 HERE = os.path.dirname(os.path.abspath(__file__))
 sys.path.insert(0, HERE)
 import props
 
 VERIF = os.path.dirname(HERE)
 ALL = ['C%02d' % i for i in range(1, 21)]
+def technique_of(P):
+    units = sorted(set(u['unit'] for u in P.get('verus', [])))
+    hs = P.get('kani', {}).get('harnesses', [])
+    nb = len([h for h in hs if h.get('kind') == 'B'])
+    parts = []
+    if units:
+        parts.append('Verus contracts on functions extracted verbatim from /repo each run (unit%s %s)' % ('s' if len(units) > 1 else '', ', '.join(units)))
+    if hs:
+        parts.append('%d Kani/CBMC harness(es) over full symbolic domains on the real crate%s' % (len(hs) - nb, (' + %d bounded' % nb) if nb else ''))
+    qn = [os.path.basename(d['file']).split('.')[0] for d in P.get('quick_native', [])]
+    t = 'contract-based deductive verification of the real code: ' + '; '.join(parts)
+    if qn:
+        t += '; bounded stand-ins for clauses outside the verifiers\' reach (labelled bounded, not proof): native search driver%s %s' % ('s' if len(qn) > 1 else '', ', '.join(qn))
+    return t
+
+
 checks = []
 for pid in ALL:
     if pid not in props.PROPS:
@@ -27,7 +43,7 @@ for pid in ALL:
         'engine': P.get('engine', 'contracts'),
         'level_claimed': {'category': P.get('level', 'proof'), 'text': P.get('level_text', default_text), 'design_ref': 'DESIGN.md §4 ' + pid},
         'level_note': P.get('level_note', default_note),
-        'technique': P.get('technique', 'contract-based deductive verification of the real code'),
+        'technique': P.get('technique', technique_of(P)),
     })
 na = [{'property_id': pid, 'reason': props.NOT_APPLICABLE[pid]} for pid in ALL if pid not in props.PROPS]
 m = {
